@@ -1,19 +1,25 @@
 """C11 -- fixing preserves all untouched text.   Functions under contract:
    sqlfluff.core.linter.linted_file: LintedFile.fix_string   (the splice theorem over C30's contracts)
    sqlfluff.core.linter.linted_file: LintedFile.persist_tree (write happens exactly when something fixable changed)
-Bounded (labelled): Linter._normalise_newlines vs. the reference replacement; decode/encode round trip of
-load_raw_file_and_config + _safe_create_replace_file on undecodable bytes (known finding).
+   sqlfluff.core.linter.linter: Linter._normalise_newlines   (EXECUTABLE contract only -- native_only: the body is one regex.sub
+                                                              call, whose meaning pyvc does not model; run on the real function
+                                                              over strings of CR LF VT FF FS GS RS NEL LS PS and letters)
+Bounded (labelled): Linter._normalise_newlines vs. the reference replacement (exhaustive over short strings); decode/encode round
+trip of load_raw_file_and_config + _safe_create_replace_file on undecodable bytes (known finding); and, in c11_bounded.py:
+get_encoding (syntactic obligation + executable contract), large files, end-to-end fixes through the API, files and the CLI
+with line-boundary-like characters in comments and literals, byte order marks.
 """
 import os
 
 from pyvc.dsl import contract, external, spec, lemma, implies, inline, ref_class, rec_class
-from pyvc.ty import INT, BOOL, Text, TList, TTuple, TOpt, SLICE, TOpaque
+from pyvc.ty import INT, BOOL, Text, StrA, TList, TTuple, TOpt, SLICE, TOpaque
 
 from .types import FixPatch, RawFileSlice, TemplatedFileSlice
 from . import c30 as _c30
 from . import c10 as _c10
 from .c30 import tiles, built
 from .c10 import raw_tiled
+from . import c11_bounded as _c11b
 
 PROP = "C11"
 
@@ -144,27 +150,67 @@ def fix_changes(lf):
     return lf.fix_string()[1]
 
 
+# ------------------------------------------------------------------ _normalise_newlines: "line endings are normalised to LF"
+@spec(recursive=True)
+def crlf_before(s: StrA, x: INT) -> INT:
+    """number of CR LF pairs that start strictly before offset x"""
+    return 0 if x <= 0 else crlf_before(s, x - 1) + (1 if (s[x - 1] == "\r" and x < len(s) and s[x] == "\n") else 0)
+
+
+@spec
+def cr_of_crlf(s, i):
+    """position i holds the CR of a CR LF pair: the pair becomes ONE LF (the one already there)"""
+    return s[i] == "\r" and i + 1 < len(s) and s[i + 1] == "\n"
+
+
+@contract("sqlfluff.core.linter.linter:Linter._normalise_newlines", PROP)
+class normalise_newlines:
+    """The property's meaning of `line endings are normalised to LF`: the result is the input with every CR LF and every
+    lone CR replaced by LF and NOTHING else changed.  Stated positionally: the CR of each CR LF pair is dropped; every other
+    position i survives, in order, at offset i - (pairs before i), as LF if it held a CR and as the same character otherwise
+    (so VT, FF, FS, GS, RS, NEL, LS, PS and every letter are copied; the number of characters is len - pairs)."""
+    types = {"string": StrA}
+    ret = StrA
+    # one regex.sub call: outside the symbolic subset.  The executable contract is run on the real function (bounded)
+    opts = {"native_only": True, "alphabet": "ab\r\r\n\n\x0b\x0c\x1c\x1d\x1e\x85\u2028\u2029 ", "max_len": 8}
+
+    def ensures(string, result):
+        return (len(result) == len(string) - crlf_before(string, len(string))
+                and all((True if cr_of_crlf(string, i)
+                         else result[i - crlf_before(string, i)] == ("\n" if string[i] == "\r" else string[i]))
+                        for i in range(len(string))))
+
+
 # ------------------------------------------------------------------ bounded stand-ins
+NL_WIDE = "a\r\n\x0b\x0c\x1c\x1d\x1e\x85\u2028\u2029 \xe9"
+
+
 def newline_normalisation(tier, seed):
-    """Linter._normalise_newlines == replace \\r\\n and lone \\r by \\n, nothing else: exhaustive over {a, \\r, \\n}^<=n"""
+    """Linter._normalise_newlines == replace \\r\\n and lone \\r by \\n, nothing else: exhaustive over {a, \\r, \\n}^<=n and over
+    the wide alphabet NL_WIDE^<=m (characters that other notions of `line boundary` would also rewrite)"""
     import itertools
     from sqlfluff.core.linter.linter import Linter
     n = 9 if tier == "thorough" else 7
-    ev, failed, samples = 0, [], []
-    for k in range(n + 1):
-        for tup in itertools.product("a\r\n", repeat=k):
-            s = "".join(tup)
-            ev += 1
-            want = s.replace("\r\n", "\n").replace("\r", "\n")
-            got = Linter._normalise_newlines(s)
-            if got != want and not failed:
-                failed.append({"name": "C11/normalise_newlines", "id": "C11/normalise_newlines", "kind": "bounded", "status": "failed",
-                               "function": "sqlfluff.core.linter.linter:Linter._normalise_newlines",
-                               "detail": {"input": repr(s), "expected": repr(want), "observed": repr(got)}, "reproduced": True})
-            if len(samples) < 3 and "\r" in s and k > 3:
-                samples.append({"input": repr(s), "output": repr(got)})
-    return {"name": "newline-normalisation", "bound": f"all strings over {{a,CR,LF}} up to length {n}", "rule": "exhaustive enumeration; non-trivial = contains CR",
-            "evaluations": ev, "distinct_nontrivial": ev - 2 ** (n + 1) + 1, "samples": samples, "failed": failed, "exhaustive": True}
+    m = 5 if tier == "thorough" else 4
+    ev, nontriv, failed, samples = 0, 0, [], []
+    narrow = ("".join(tup) for k in range(n + 1) for tup in itertools.product("a\r\n", repeat=k))
+    wide = ("".join(tup) for k in range(1, m + 1) for tup in itertools.product(NL_WIDE, repeat=k) if not set(tup) <= set("a\r\n"))
+    for s in itertools.chain(narrow, wide):
+        ev += 1
+        nontriv += 1 if any(c in s for c in "\r" + _c11b.SPECIALS) else 0
+        want = s.replace("\r\n", "\n").replace("\r", "\n")
+        got = Linter._normalise_newlines(s)
+        if got != want and not failed:
+            failed.append({"name": "C11/normalise_newlines", "id": "C11/normalise_newlines", "kind": "bounded", "status": "failed",
+                           "function": "sqlfluff.core.linter.linter:Linter._normalise_newlines",
+                           "detail": {"input": repr(s), "expected": repr(want), "observed": repr(got)}, "reproduced": True})
+        if len(samples) < 3 and "\r" in s and len(s) > 3:
+            samples.append({"input": repr(s), "output": repr(got)})
+    return {"name": "newline-normalisation",
+            "bound": (f"all strings over {{a,CR,LF}} up to length {n}; all strings over {{a, CR, LF, VT, FF, FS, GS, RS, NEL, LS, PS, space, e-acute}} "
+                      f"up to length {m}"),
+            "rule": "exhaustive enumeration; non-trivial = contains CR or one of VT FF FS GS RS NEL LS PS",
+            "evaluations": ev, "distinct_nontrivial": nontriv, "samples": samples, "failed": failed, "exhaustive": True}
 
 
 def byte_round_trip(tier, seed):
@@ -218,18 +264,32 @@ def byte_round_trip(tier, seed):
 
 
 BOUNDED = [newline_normalisation, byte_round_trip]
+EXTRA = list(_c11b.EXTRA)
 TRUSTED = ["patches_ok (the LintedFile invariant) is what Linter.lint_parsed stores: merge_source_patches' postcondition (C30), the "
            "gate (C10) and the templater's raw slices; lint_parsed itself is not under contract",
-           "FileExistsError is used as an effect marker for `the file is written` (see safe_create_replace_file)"]
+           "FileExistsError is used as an effect marker for `the file is written` (see safe_create_replace_file)",
+           "Linter._normalise_newlines, get_encoding, load_raw_file_and_config and _safe_create_replace_file are NOT proved: executable "
+           "contracts / byte-level oracles on bounded input families and one syntactic obligation (see bounded_stand_ins and c11_bounded.py)"]
 NOT_COVERED = ["the `source_patches is None` fallback of fix_string (API users only): generate_source_patches does not exclude "
                "two patches with one range, so the builder's first-match rule could apply one text twice there",
-               "bytes that cannot be decoded (bounded stand-in; known finding)"]
+               "bytes that cannot be decoded (bounded stand-in; known finding)",
+               "Linter.render_string / render_file between the loader and the templater are exercised end to end only (e2e-api / e2e-file)",
+               "encodings other than utf-8 (with/without BOM), utf-16/32 with BOM, latin-1, ascii; files larger than 300 KB; what the "
+               "detector library does with the bytes it is handed (observed through the executable contract of get_encoding only)"]
 MUTANTS = [
     ("fix_string_uses_templated", "sqlfluff/core/linter/linted_file.py", "            slice_buff, filtered_source_patches, self.templated_file.source_str\n", "            slice_buff, filtered_source_patches, self.templated_file.templated_str\n"),
     ("fix_string_success_always", "sqlfluff/core/linter/linted_file.py", "        return fixed_source_string, fixed_source_string != original_source", "        return fixed_source_string, True"),
     ("persist_writes_unchanged", "sqlfluff/core/linter/linted_file.py", "            if success:\n                fname = self.path", "            if True:\n                fname = self.path"),
     ("persist_ignores_fixable_count", "sqlfluff/core/linter/linted_file.py", "        if self.num_violations(fixable=True, filter_warning=False) > 0:", "        if self.num_violations(fixable=True, filter_warning=False) >= 0:"),
     ("normalise_keeps_cr", "sqlfluff/core/linter/linter.py", 'return regex.sub(r"\\r\\n|\\r", "\\n", string)', 'return regex.sub(r"\\r\\n", "\\n", string)'),
+    ("normalise_generic_newline", "sqlfluff/core/linter/linter.py", 'return regex.sub(r"\\r\\n|\\r", "\\n", string)', 'return regex.sub(r"\\R", "\\n", string)'),
+    ("normalise_splitlines", "sqlfluff/core/linter/linter.py", 'return regex.sub(r"\\r\\n|\\r", "\\n", string)', 'return "\\n".join(string.splitlines()) + ("\\n" if string[-1:] in ("\\r", "\\n") else "")'),
+    ("normalise_crlf_to_two_lf", "sqlfluff/core/linter/linter.py", 'return regex.sub(r"\\r\\n|\\r", "\\n", string)', 'return regex.sub(r"\\r", "\\n", string)'),
+    ("normalise_form_feed", "sqlfluff/core/linter/linter.py", 'return regex.sub(r"\\r\\n|\\r", "\\n", string)', 'return regex.sub(r"\\r\\n|\\r|\\f", "\\n", string)'),
+    ("get_encoding_samples_4096", "sqlfluff/core/helpers/file.py", "        data = f.read()\n", "        data = f.read(4096)\n"),
+    ("get_encoding_samples_100000", "sqlfluff/core/helpers/file.py", "        data = f.read()\n", "        data = f.read(100000)\n"),
+    ("get_encoding_detects_on_prefix", "sqlfluff/core/helpers/file.py", "chardet.detect(data)", "chardet.detect(data[:1024])"),
+    ("get_encoding_ascii_test_on_prefix", "sqlfluff/core/helpers/file.py", "if all(char < 128 for char in data):", "if all(char < 128 for char in data[:2048]):"),
 ]
 
 
@@ -278,3 +338,4 @@ def fix_string_reference_splice(tier, seed):
 
 
 BOUNDED.append(fix_string_reference_splice)
+BOUNDED.extend(_c11b.BOUNDED)
